@@ -244,16 +244,19 @@ Definition ex_request : rpc_request :=
    count query followed by one EIP-1559 transaction carrying nonce 0x2a, answering with the
    backend's result under the caller's (large-integer) id although the backend echoed another id *)
 Example C09_send_tx_nonvacuous :
-  exists tx raw,
-    decode_transaction ex_parse ex_tx = Ok tx /\ tx_from tx = Some (JStr (hex0x ex_addr)) /\
-    dec_address (JStr (hex0x ex_addr)) = Ok ex_addr /\ tx_nonce tx = None /\
-    requested_format tx = Eip1559 /\
-    raw = spec_signed Eip1559 (requested_fields (set_nonce tx (Some 42%N))) 2022 1 5 7 /\
-    processRPC ex_parse [ex_addr] ex_sign ex_backend 2022%Z (Some ex_request)
-    = Ok (Some (mkResp (bs "2.0") (Some (JNum (bs "18446744073709551617"))) (Some (JStr (bs "0xhash"))) None [] None),
-          false, [count_frame ex_addr; raw_frame raw]).
+  exists tx,
+    decode_transaction ex_parse ex_tx = Ok tx /\
+    (tx_from tx = Some (JStr (hex0x ex_addr)) /\
+     dec_address (JStr (hex0x ex_addr)) = Ok ex_addr /\ tx_nonce tx = None /\
+     requested_format tx = Eip1559 /\
+     processRPC ex_parse [ex_addr] ex_sign ex_backend 2022%Z (Some ex_request)
+     = Ok (Some (mkResp (bs "2.0") (Some (JNum (bs "18446744073709551617"))) (Some (JStr (bs "0xhash"))) None [] None),
+           false,
+           [count_frame ex_addr;
+            raw_frame (spec_signed Eip1559 (requested_fields (set_nonce tx (Some 42%N))) 2022 1 5 7)])).
 Proof.
-  eexists. eexists. vm_compute. repeat split; reflexivity.
+  eexists. split; [vm_compute; reflexivity|].
+  vm_compute. repeat split; reflexivity.
 Qed.
 
 (* a batch of three (pass-through, accounts, a request without id) completing in the order 2,0,1:
